@@ -215,3 +215,24 @@ Proof. vm_compute. reflexivity. Qed.
 (* the diamond is outside: N1 and N2 share the ancestor N0 *)
 Lemma diamond_not_independent : independent_inputs diamond = false /\ c03_domain diamond = false.
 Proof. split; vm_compute; reflexivity. Qed.
+
+(* ---------- the shared origin the code aligns (DESIGN: C03_shared_direct) ---------- *)
+(* N0 split over vs (and us) -> N1 hands N0's state on -> N2 consumes N0 directly and through N1 (in either
+   field order) and has an own splitter over ws; N3 consumes N2 *)
+Definition shared_direct (vs us ws : list Z) (flip : bool) : workflow :=
+  [ {| n_fields := [BSplit vs; BSplit us]; n_split := [0; 1]; n_comb := [] |};
+    {| n_fields := [BUp 0; BConst 7%Z]; n_split := []; n_comb := [] |};
+    {| n_fields := (if flip then [BUp 1; BUp 0] else [BUp 0; BUp 1]) ++ [BSplit ws]; n_split := [2]; n_comb := [] |};
+    {| n_fields := [BUp 2]; n_split := []; n_comb := [] |} ].
+Lemma shared_direct_aligned vs us ws flip : c03_aligned (shared_direct vs us ws flip) = true.
+Proof. destruct flip; vm_compute; reflexivity. Qed.
+Lemma shared_direct_not_separate : c03_domain (shared_direct [1; 2]%Z [3]%Z [4; 5]%Z false) = false.
+Proof. vm_compute. reflexivity. Qed.
+Theorem shared_direct_ok : forall vs us ws flip,
+  model_run (shared_direct vs us ws flip) = Some (spec_run (shared_direct vs us ws flip)).
+Proof. intros. apply aligned. apply shared_direct_aligned. Qed.
+(* the aligned job count: N2 runs |vs|*|us|*|ws| times, not (|vs|*|us|)^2*|ws| *)
+Lemma shared_direct_counts : spec_njobs (shared_direct [1; 2]%Z [3]%Z [4; 5]%Z false) = [2; 2; 4; 4]
+  /\ option_map (map (fun v => match v with VList l => List.length l | _ => 0 end))
+       (model_run (shared_direct [1; 2]%Z [3]%Z [4; 5]%Z false)) = Some [2; 2; 4; 4].
+Proof. split; vm_compute; reflexivity. Qed.
